@@ -228,10 +228,14 @@ CLAIMED = {
     "C15": {
         "text": "Lean theorems over ALL key-type descriptors (nested arbitrarily) and all valid encodings: the comparator is a total preorder "
                 "respecting equality (pairs and triples), the separator of a<b is a valid encoding s with a<=s<b and len(s)<=len(a), branch "
-                "separators of fixed-width types are never shortened, min_encoded_key is least. The model's compare/fixed_width/min key are "
-                "compared exactly with the real functions on generated values of 40 concrete types; real separators are judged by the "
-                "proved decidable contract. Proof is the right level because the quantifier is over all inputs of pure functions.",
-        "note": NOTE + "; chrono types, f32/f64 and user-defined Key impls are out of scope; value-level decode(encode v)=v and compare==Ord are checked by the harness oracle on the implementation (not yet a Lean theorem)",
+                "separators of fixed-width types are never shortened, min_encoded_key is least. Value level: for every well-typed value v of every "
+                "descriptor encode v is valid, decode (encode v) = v, byte comparison of encodings equals the natural order of the values "
+                "(integers numerically, UTF-8 byte order = scalar order for strings, Option None < Some, arrays and tuples lexicographic), hence "
+                "iteration order = value order, and the separator / routing contract restated over values. The model's encode / compare / "
+                "fixed_width / min key are compared exactly with the real as_bytes / compare / Ord on generated values of 40 concrete types "
+                "(values are passed in a canonical text form, the model's own encoder must reproduce the bytes); real separators are judged by "
+                "the proved decidable contract. Proof is the right level because the quantifier is over all inputs of pure functions.",
+        "note": NOTE + "; chrono types, f32/f64 and user-defined Key impls are out of scope; wellTyped carries the Rust encoder's own no-panic bounds (elements and variable arrays below 2^32 bytes); the converse 'every valid encoding is the encoding of a value' is not proved (non-canonical varints are valid)",
         "technique": "Lean 4 proof (induction over key-type descriptors) + differential correspondence",
         "design_ref": "DESIGN.md §6 C15",
     },
